@@ -348,7 +348,8 @@ class FloatEdit(NumEdit):
             if preserve_significance and isinstance(default, Decimal):
                 self.significance = default
 
-            val = str(default)
+            # the text shown uses the configured separator, never a second one
+            val = str(default).replace(".", self._decimal_separator)
 
         super().__init__(self.ALLOWED[0:10] + self._decimal_separator, caption, val, allow_negative=allow_negative)
 
